@@ -1,0 +1,16 @@
+//go:build verif
+
+package genetics
+
+// This file exists only in builds with the `verif` tag (C15, codec round trips). Organism.MarshalBinary writes two
+// unexported fields; the verification harness sets and reads them through these accessors. No behaviour here.
+
+// VerifChampFields returns the unexported fields that MarshalBinary writes besides fitness, generation and genome.
+func (o *Organism) VerifChampFields() (highestFitness float64, isPopulationChampionChild bool) {
+	return o.highestFitness, o.isPopulationChampionChild
+}
+
+// VerifSetChampFields sets the unexported fields that MarshalBinary writes.
+func (o *Organism) VerifSetChampFields(highestFitness float64, isPopulationChampionChild bool) {
+	o.highestFitness, o.isPopulationChampionChild = highestFitness, isPopulationChampionChild
+}
